@@ -1,6 +1,7 @@
 package main
 
 import (
+	"verif.local/mc/harness/c10"
 	"verif.local/mc/harness/c07"
 	"verif.local/mc/harness/c08"
 	"verif.local/mc/harness/c09"
@@ -10,6 +11,7 @@ import (
 )
 
 func init() {
+	register("C10", "exploration", c10.Run)
 	register("C09", "exploration", c09.Run)
 	register("C08", "fault_enumeration", c08.Run)
 	register("C18", "model_checking", c18.Run)
